@@ -43,7 +43,7 @@ OPS = ["add", "add", "move", "move", "move", "remove", "pop", "touch"]
 @st.composite
 def st_case(draw) -> Dict[str, Any]:
     res = draw(st.sampled_from([5, 7, 7, 9, 11, 12]))
-    ops = draw(st.lists(st.tuples(st.sampled_from(OPS), st.sampled_from(KINDS), st.integers(0, 7), st.sampled_from([0, 0, 1, 1, 2, 3, 4, 5, 6, 7, 8, 9, 10, 11])).map(list), min_size=8, max_size=60))
+    ops = draw(st.lists(st.tuples(st.sampled_from(OPS), st.sampled_from(KINDS), st.integers(0, 7), st.sampled_from([0, 0, 1, 1, 2, 3, 4, 5, 6, 7, 8, 9, 10, 11]), st.integers(0, 2)).map(list), min_size=8, max_size=60))
     return {"res": res, "ops": ops}
 
 
@@ -111,7 +111,21 @@ def check_case(case: Dict[str, Any]) -> Tuple[List[Violation], Set[str], Dict[st
             return None
         return r.unwrap()
 
-    for oi, (op, kind, sel, ci) in enumerate(case["ops"]):
+    def also_change(ent, kind, also):
+        """an update may change other fields together with (or instead of) the position: a request is handed to / taken from
+        a vehicle in the same update that moves its pickup point, a vehicle is paid while it moves"""
+        if not also:
+            return ent
+        flags.add("update_changes_several_fields")
+        if kind == "r":
+            return ent.unassign_dispatched_vehicle() if ent.dispatched_vehicle is not None else ent.assign_dispatched_vehicle(f"v{also}", SimTime(oi))
+        if kind == "v":
+            return ent.receive_payment(1.0)
+        return ent
+
+    for oi, row in enumerate(case["ops"]):
+        op, kind, sel, ci = row[:4]
+        also = row[4] if len(row) > 4 else 0
         g = pool[ci % len(pool)]
         ids = sorted(model[kind])
         add = getattr(ops, {"v": "add_vehicle_safe", "r": "add_request_safe", "s": "add_station_safe", "b": "add_base_safe"}[kind])
@@ -131,7 +145,7 @@ def check_case(case: Dict[str, Any]) -> Tuple[List[Violation], Set[str], Dict[st
             ent = getattr(sim, coll[kind])[i]
             old = model[kind][i]
             if op == "move":
-                moved = dataclasses.replace(ent, position=pos(g))
+                moved = also_change(dataclasses.replace(ent, position=pos(g)), kind, also)
                 if kind in ("s", "b"):
                     r = mod(sim, moved)
                     if g != old:
@@ -159,7 +173,7 @@ def check_case(case: Dict[str, Any]) -> Tuple[List[Violation], Set[str], Dict[st
                             flags.add("return_to_previous_cell")
                         visited[i].add(old)
             elif op == "touch":  # modify without moving
-                s2 = unwrap(mod(sim, ent), "modify in place")
+                s2 = unwrap(mod(sim, also_change(ent, kind, also)), "modify in place")
                 if s2 is None:
                     break
                 sim = s2
